@@ -169,13 +169,53 @@ def cases(tier, seed):
             out.append(('%s/%s/thresholds' % (name, dsn), ('pairs', name, dsn, b['depth'], seed)))
         out.append(('SCML/%s/triplets' % dsn, ('triplets', 'SCML', dsn, seed)))
         out.append(('LSML/%s/quadruplets' % dsn, ('quads', 'LSML', dsn, seed)))
+    for name in zoo.PAIRS + ['SCML', 'LSML']:
+        out.append(('%s/S3u/replaced_preprocessor' % name, ('prehist', name, 'S3u', seed)))
     return out
+
+
+def replaced_preprocessor_case(name, ds):
+    """History: fit on indicators through array preprocessor X1, set_params(preprocessor=X2), fit again; tuples given as
+    indicators now designate rows of X2, and every decision must be the one for those points."""
+    viol, sigs = [], set()
+    kind = zoo.KIND[name]
+    X1 = ds.X.copy()
+    X2 = ds.X * np.linspace(0.5, 2.0, ds.d) + 0.25
+    est = zoo.make(name, ds, preprocessor=X1)
+    ia = zoo.train_args(name, ds, 'index')
+    est.fit(*ia)
+    est.set_params(preprocessor=X2)
+    est.fit(*ia)
+    n = len(X2)
+    k = {'pairs': 2, 'triplets': 3, 'quads': 4}[kind]
+    I = np.array([[(3 * i + j * j + 1) % n for j in range(k)] for i in range(40)] + [[0] * k, [1, 0, 1, 0][:k]])
+    evals = 0
+    for step in ('second fit', 'set_threshold'):
+        if step == 'set_threshold':
+            if kind != 'pairs':
+                break
+            est.set_threshold(float(np.median(est.pair_distance(X2[I]))))
+        for meth in ('decision_function', 'predict'):
+            ri, rf = getattr(est, meth)(I), getattr(est, meth)(X2[I])
+            evals += 2
+            sigs.add((name, step, meth))
+            if not np.array_equal(ri, rf):
+                viol.append(V(name + '.' + meth, 'designated_points', 'after fit / set_params(preprocessor=X2) / fit, %s on indicator tuples is not '
+                              '%s on the designated rows of X2 [%s]' % (meth, meth, step), ['replaced_preprocessor']))
+        d_formed = est.pair_distance(X2[I][:, :2])
+        if kind == 'pairs' and not np.array_equal(est.decision_function(I), -d_formed):
+            viol.append(V(name + '.decision_function', 'designated_points', 'decision_function on indicator pairs is not the negated distance of the '
+                          'designated rows of X2 [%s]' % step, ['replaced_preprocessor']))
+    return dict(evals=evals, sigs=sigs, viol=viol, states=0, transitions=0,
+                sample={'learner': name, 'dataset': ds.name, 'history': 'fit(idx; X1) -> set_params(preprocessor=X2) -> fit(idx) -> queries on indicators'})
 
 
 def run_case(spec):
     kind, name, dsn = spec[0], spec[1], spec[2]
     warnings.simplefilter('ignore')
     ds = data.dataset('R', spec[-1]) if dsn == 'R' else data.dataset(dsn)
+    if kind == 'prehist':
+        return replaced_preprocessor_case(name, ds)
     if kind == 'pairs':
         s, ntest = pairs_search(name, ds, spec[3])
         viol = []
